@@ -137,7 +137,7 @@ def populate_script(cfg, recipe, blobdir, rnd):
     nd = recipe.get('dirents', 120)
     c += ['mkdir many', 'cd many']
     for i in range(nd):
-        nm = 'f%03d-%s' % (i, 'n' * (rnd.randrange(1, 60) if recipe.get('longnames') else 3))
+        ln = recipe.get('longnames'); nm = 'f%03d-%s' % (i, 'n' * (rnd.randrange(1, 60) if ln is True else ln if ln else 3))
         c.append('write /dev/null %s' % nm)
     c += ['cd /']
     if 'ext_attr' not in ' '.join(cfg['features']) or True:
@@ -162,3 +162,32 @@ def build_image(tools, img, cfg, recipe, blobdir, rnd, index_dirs=True):
     r2 = tools.fsck(img, '-fn')
     if r2.rc != 0: return False, 'not clean after population: ' + r2.out[-800:]
     return True, ''
+
+# ---- extra, generated population on top of a template (Hypothesis draws the op tuples) ----
+# op = (kind, a, b): 0 dir with `a` entries of name length `b`; 1 regular file of size a*b bytes (+1 if b odd); 2 symlink of length a; 3 xattr (value length a) on a new file; 4 sparse file (hole of a blocks, then b bytes)
+def extras_script(ops, blobdir, bs):
+    c = []
+    for i, (kind, a, b) in enumerate(ops):
+        kind %= 5
+        if kind == 0:
+            n = 1 + a % 900; ln = 1 + b % 250
+            c += ['mkdir x%d' % i, 'cd x%d' % i]
+            for k in range(n):
+                nm = ('%04d' % k + 'q' * ln)[:max(ln, 4)]
+                c.append('write /dev/null %s' % nm)
+            c += ['cd /']
+        elif kind == 1:
+            size = (a % 400) * (1 + b % 3000) + (b & 1)
+            c.append('write %s x%d' % (_blob(blobdir, 'x-%d' % size, size, size), i))
+        elif kind == 2:
+            c.append('symlink x%d %s' % (i, 't' * (1 + a % 1000)))
+        elif kind == 3:
+            val = os.path.join(blobdir, 'xv%d' % (a % 3000)); open(val, 'wb').write(b'V' * (a % 3000))
+            c += ['write /dev/null x%d' % i, 'ea_set -f %s x%d user.x%d' % (val, i, b % 7)]
+        elif kind == 4:
+            hole = 1 + a % 300; tail = 1 + b % 5000
+            p = os.path.join(blobdir, 'sp-%d-%d' % (hole, tail))
+            if not os.path.exists(p):
+                with open(p, 'wb') as f: f.seek(hole * bs); f.write(bytes([65 + (b % 20)]) * tail)
+            c.append('write %s x%d' % (p, i))
+    return c
